@@ -355,9 +355,9 @@ def do_gc(cx, res):
         if rd["res"] != exp:
             bad_reads.append({"read": rd, "expected": exp})
     cx.oracle(not bad_reads, res, "C14_outcomes_kept(snapshot reads at ts >= safe point)", json.dumps(bad_reads[:3]))
-    # C14_rollback_markers_partial: late prewrites of rolled-back (key, start) are refused; the model's markers are on disk (mock tier)
+    # rollback markers (oracle only; C12 owns the store-side theorem): late prewrites of rolled-back (key, start) are refused; the model's markers are on disk (mock tier)
     late_bad = [rd for rd in res.get("late") or [] if rd["res"] != "refused"]
-    cx.oracle(not late_bad, res, "C14_rollback_markers_partial(a late prewrite of a rolled-back (key, start ts) is refused)", json.dumps(late_bad[:3]))
+    cx.oracle(not late_bad, res, "rollback markers (oracle only, the theorem is C12's): a late prewrite of a rolled-back (key, start ts) is refused", json.dumps(late_bad[:3]))
     cx.stats["late-prewrite-probes"] += len(res.get("late") or [])
     if not uni:
         def cb_mark(f):
@@ -631,13 +631,13 @@ def do_vis(cx, res):
         # oracle: the theorem's conclusion, directly
         if not stale:
             if ts < cached:
-                cx.oracle(rd["res"] == "gc", res, "C14_visibility(read below the cached safe point is refused)", json.dumps(rd))
+                cx.oracle(rd["res"] == "gc", res, "C14_visibility_schedule(read below the cached safe point is refused)", json.dumps(rd))
             else:
-                cx.oracle(rd["res"] not in ("gc", "pdtimeout") and not rd["res"].startswith("err:"), res, "C14_visibility(read at/above the cached safe point is served)", json.dumps(rd))
+                cx.oracle(rd["res"] not in ("gc", "pdtimeout") and not rd["res"].startswith("err:"), res, "C14_visibility_schedule(read at/above the cached safe point is served)", json.dumps(rd))
                 if rd["key"].startswith("get:"):
                     k = rd["key"][4:]
                     exp = "V" + vals[k] if commits[k][0] <= ts else "N"
-                    cx.oracle(rd["res"] == exp, res, "C14_visibility(served read returns the data)", "%s expected %s" % (json.dumps(rd), exp))
+                    cx.oracle(rd["res"] == exp, res, "C14_visibility_schedule(served read returns the data)", "%s expected %s" % (json.dumps(rd), exp))
         cx.sigs.add(("vis", cached, stale, ts < cached, ts == cached, rd["key"].split(":")[0]))
 
         def cb(f, rd=rd):
@@ -709,7 +709,7 @@ def do_vist(cx, res):
         cx.oracle(not bad_re, res, "C14_visibility_schedule(a refused read leaves nothing in the snapshot cache: re-reads stay refused)", json.dumps(bad_re))
         cx.stats["vist-reread-after-refused"] += len(res.get("late") or [])
     later = res["vis"][1]["res"] if len(res["vis"]) > 1 else None
-    cx.oracle((later == "gc") == (ts < cur), res, "C14_visibility(a later read sees the safe point learned after the call)", "later get: %s, cached %d, ts %d" % (later, cur, ts))
+    cx.oracle((later == "gc") == (ts < cur), res, "C14_visibility_schedule(a later read sees the safe point learned after the call)", "later get: %s, cached %d, ts %d" % (later, cur, ts))
     cx.sigs.add(("vist", path, tuple(inst), exp, served if per_batch else 0, c.get("batch_size") if per_batch else 0))
     cx.samples.setdefault("vist-" + path, {"case": {k: v for k, v in c.items() if k != "script"}, "schedule": mev, "verdict": got, "entries": len(entries)})
     for i in inst:
